@@ -13,6 +13,13 @@ from .expr import (BoundMethod, BoundBuiltin, SuperProxy, LambdaV, GenV, PyDict,
 from . import source
 
 
+class EngineCallable(object):
+    """engine-level callable: fn(ex, st, args, kwargs, fr) -> iterable of (st, SV|Raised)"""
+
+    def __init__(self, fn):
+        self.fn = fn
+
+
 def func_key(fn):
     return '%s:%s' % (fn.__module__, fn.__qualname__)
 
@@ -307,10 +314,10 @@ class CallMixin(object):
                 yield st1, v
                 continue
             if k0.arg is None:
-                if v.is_py and isinstance(v.py, PyDict):
-                    head = dict(v.py.items)
-                else:
+                sh = self.dict_shadow(st1, v)
+                if sh is None:
                     raise OutOfReach('**kwargs expansion of %r' % (v,))
+                head = dict(sh)
             else:
                 head = {k0.arg: v}
             for st2, rest in self.ev_kwargs(kws[1:], st1, fr):
@@ -347,7 +354,11 @@ class CallMixin(object):
             return self.call_builtin_method(st, f.recv, f.name, args, kwargs, fr)
         if isinstance(f, LambdaV):
             return self.call_lambda(st, f, args)
+        if isinstance(f, EngineCallable):
+            return f.fn(self, st, args, kwargs, fr)
         if isinstance(f, _types.FunctionType):
+            if not (f.__module__ or '').startswith('hl7apy'):
+                return self.call_external(st, f, args, kwargs, fr)
             return self.call_function(st, f, args, kwargs, fr)
         if isinstance(f, type):
             return self.call_class(st, f, args, kwargs, fr)
@@ -541,7 +552,9 @@ class CallMixin(object):
                 yield st1, obj
 
     def call_external(self, st, f, args, kwargs, fr):
-        hook = self.world.specfuncs.get('ext:' + getattr(f, '__qualname__', repr(f)))
+        hook = self.world.specfuncs.get('ext:%s.%s' % (getattr(f, '__module__', ''), getattr(f, '__qualname__', repr(f))))
+        if hook is None:
+            hook = self.world.specfuncs.get('ext:' + getattr(f, '__qualname__', repr(f)))
         if hook is None and hasattr(f, '__self__'):
             hook = self.world.specfuncs.get('ext:%s.%s' % (type(f.__self__).__name__, f.__name__))
         if hook is not None:
